@@ -140,20 +140,24 @@ package cty
 //@   ensures[C04] nomarks: (=> (and (not (is_marked val)) (not (is_marked other))) (not (is_marked result)))
 //@   ensures[C06] wf: (wf_deep result)
 //
-// Equals is not verified yet (C03): the clauses below are assumed at its call sites.
+// Equals: the mark clause is proved (every mark of a top-level operand is on the result: the preamble
+// strips all marks, compares, and re-applies them; nothing before the preamble returns). The functional
+// clauses are assumed at its call sites, not proved (C03; `ensures[assumed]`), and the function is verified
+// without a no-panic claim.
 //@ func (cty.Value).Equals
-//@   trusted
+//@   tags C04
+//@   may_panic
 //@   requires (and (wf_deep val) (wf_deep other))
-//@   ensures (and (is_bool_ty (vty result)) (wf_deep result) (not (is_null result)))
-//@   ensures (=> (and (not (is_marked val)) (not (is_marked other)) (or (not (is_known val)) (not (is_known other)))) (or (not (is_known result)) (bool_payload result false)))
+//@   ensures[assumed] (and (is_bool_ty (vty result)) (wf_deep result) (not (is_null result)))
+//@   ensures[assumed] (=> (and (not (is_marked val)) (not (is_marked other)) (or (not (is_known val)) (not (is_known other)))) (or (not (is_known result)) (bool_payload result false)))
 // (an unknown operand answers False only where its refinement or type excludes the other operand; a bool
 // refinement records nullness only, so an unknown bool against a known non-null bool is never decided)
-//@   ensures (=> (and (not (is_marked val)) (not (is_marked other)) (is_bool_ty (vty val)) (is_bool_ty (vty other)) (or (and (not (is_known val)) (kn other)) (and (not (is_known other)) (kn val)) (and (not (is_known val)) (not (is_known other))))) (not (is_known result)))
-//@   ensures (=> (and (is_prim_ty (vty val)) (is_prim_ty (vty other)) (not (is_marked val)) (not (is_marked other))) (not (is_marked result)))
-//@   ensures (=> (and (is_number_ty (vty val)) (is_number_ty (vty other)) (kn val) (kn other) (not (is_marked val)) (not (is_marked other))) (and (not (is_marked result)) (bool_payload result (num_eq val other))))
-//@   ensures (forall ((k Any)) (! (=> (or (select (marks_of val) k) (select (marks_of other) k)) (select (marks_of result) k)) :pattern ((select (marks_of result) k))))
-//@   ensures (=> (and (is_bool_ty (vty val)) (is_bool_ty (vty other)) (kn val) (kn other) (not (is_marked val)) (not (is_marked other))) (and (not (is_marked result)) (bool_payload result (= (bool_of val) (bool_of other)))))
-//@   ensures (=> (and (is_string_ty (vty val)) (is_string_ty (vty other)) (kn val) (kn other) (not (is_marked val)) (not (is_marked other))) (and (not (is_marked result)) (bool_payload result (= (str_of val) (str_of other)))))
+//@   ensures[assumed] (=> (and (not (is_marked val)) (not (is_marked other)) (is_bool_ty (vty val)) (is_bool_ty (vty other)) (or (and (not (is_known val)) (kn other)) (and (not (is_known other)) (kn val)) (and (not (is_known val)) (not (is_known other))))) (not (is_known result)))
+//@   ensures[assumed] (=> (and (is_prim_ty (vty val)) (is_prim_ty (vty other)) (not (is_marked val)) (not (is_marked other))) (not (is_marked result)))
+//@   ensures[assumed] (=> (and (is_number_ty (vty val)) (is_number_ty (vty other)) (kn val) (kn other) (not (is_marked val)) (not (is_marked other))) (and (not (is_marked result)) (bool_payload result (num_eq val other))))
+//@   ensures[C04] marks_kept: (forall ((k Any)) (! (=> (or (select (marks_of val) k) (select (marks_of other) k)) (select (marks_of result) k)) :pattern ((select (marks_of result) k))))
+//@   ensures[assumed] (=> (and (is_bool_ty (vty val)) (is_bool_ty (vty other)) (kn val) (kn other) (not (is_marked val)) (not (is_marked other))) (and (not (is_marked result)) (bool_payload result (= (bool_of val) (bool_of other)))))
+//@   ensures[assumed] (=> (and (is_string_ty (vty val)) (is_string_ty (vty other)) (kn val) (kn other) (not (is_marked val)) (not (is_marked other))) (and (not (is_marked result)) (bool_payload result (= (str_of val) (str_of other)))))
 //
 //@ func (cty.Value).True
 //@   tags C02
